@@ -8,7 +8,11 @@ GEN  : Gen_SymTab — exhaustively: no import or one import (every symbol list u
 EXEC : NewSharedSymbolTable / Adjust / NewLocalSymbolTable / NewSymbolTableBuilder / Add / Build and the
        full query table (FindByID 0..MaxID+1, FindByName, Find, NewSymbolToken, NewSymbolTokenBySID, MaxID,
        Symbols, Imports) on the local table, the builder and the built table.
-JUDGE: Judge_SymTab (TLC) against the ID space Slots(imports, locals).
+       The local table is also written out three ways - String(), WriteTo(text writer), and as the table a
+       binary writer emits - and read back by a Reader whose catalog holds the unadjusted imports; the table
+       in force after it is queried in the same way.
+JUDGE: Judge_SymTab (TLC) against the ID space Slots(imports, locals); the re-read tables must denote the
+       same ID space.
 """
 import json
 import os
